@@ -53,7 +53,16 @@ func wrap(content *protocol.LeanhelixContentBuilder, blk interfaces.Block) *inte
 }
 
 func mkBlockRefMsg(env string, b brefT, s signerT, share []byte, blk interfaces.Block) *interfaces.ConsensusRawMessage {
+	return mkBlockRefMsgPad(env, b, s, share, blk, nil)
+}
+
+// mkBlockRefMsgPad: with pad != nil the signed header is the canonical encoding followed by pad (a non-canonical
+// encoding of the same fields), signed as it stands.
+func mkBlockRefMsgPad(env string, b brefT, s signerT, share []byte, blk interfaces.Block, pad []byte) *interfaces.ConsensusRawMessage {
 	hdr := b.builder()
+	if pad != nil {
+		hdr = protocol.BlockRefBuilderFromRaw(append(append([]byte{}, hdr.Build().Raw()...), pad...))
+	}
 	snd := s.sign(b.H, hdr.Build().Raw())
 	switch env {
 	case ref.KPP:
@@ -91,10 +100,14 @@ type voteT struct {
 	V     primitives.View
 	Proof proofT
 	S     signerT
+	Pad   []byte // non-nil: signed header = canonical bytes followed by these
 }
 
 func (v voteT) builder() *protocol.ViewChangeMessageContentBuilder {
 	hdr := &protocol.ViewChangeHeaderBuilder{MessageType: v.T, InstanceId: v.I, BlockHeight: v.H, View: v.V, PreparedProof: v.Proof.builder()}
+	if v.Pad != nil {
+		hdr = protocol.ViewChangeHeaderBuilderFromRaw(append(append([]byte{}, hdr.Build().Raw()...), v.Pad...))
+	}
 	return &protocol.ViewChangeMessageContentBuilder{SignedHeader: hdr, Sender: v.S.sign(v.H, hdr.Build().Raw())}
 }
 
